@@ -217,6 +217,15 @@ func vReach(label string)          {}
 func vObserve(label string, vals ...interface{}) {
 	fmt.Println("VERIF-OBSERVE:", label, fmt.Sprint(vals...))
 }
+// vChars: the bytes of s as one-character strings (under the executor: the number of
+// characters of every symbolic component of s is forked over 0..maxLen)
+func vChars(s string, maxLen int) []string {
+	out := make([]string, 0, len(s))
+	for i := 0; i < len(s); i++ {
+		out = append(out, s[i:i+1])
+	}
+	return out
+}
 func vYield()   {}
 func vQuiesce() { time.Sleep(150 * time.Millisecond) }
 func vAnd(a, b bool) bool         { return a && b }
@@ -309,6 +318,51 @@ func init() {
 			}
 		}
 		return nil
+	}
+	// vChars(s, maxLen): flatten the concatenation tree of s; constant parts give concrete
+	// characters, every symbolic component t is forked over its length 0..maxLen and gives
+	// the terms (str.substr t i 1).
+	rtIntrinsics["vChars"] = func(c *PathCtx, fr *frame, args []Value) Value {
+		s := args[0].(*Term)
+		ml := args[1].(*Term)
+		if !ml.Const {
+			panic(inconclusive("vChars: symbolic maxLen"))
+		}
+		var parts []*Term
+		var flat func(t *Term)
+		flat = func(t *Term) {
+			if !t.Const && t.Op == "str.++" {
+				for _, a := range t.Args {
+					flat(a)
+				}
+				return
+			}
+			parts = append(parts, t)
+		}
+		flat(s)
+		out := []Value{}
+		for _, t := range parts {
+			if t.Const {
+				for i := 0; i < len(t.S); i++ {
+					out = append(out, mkStr(t.S[i:i+1]))
+				}
+				continue
+			}
+			n := int64(-1)
+			for v := int64(0); v <= ml.Int64(); v++ {
+				if c.branch(tEq(tStrLenInt(t), mkIntC(v)), "vChars.len") {
+					n = v
+					break
+				}
+			}
+			if n < 0 {
+				c.abort("inconclusive", fmt.Sprintf("vChars: component longer than %d characters (%s)", ml.Int64(), t))
+			}
+			for i := int64(0); i < n; i++ {
+				out = append(out, tSubstr(t, mkIntC(i), mkIntC(1)))
+			}
+		}
+		return out
 	}
 	rtIntrinsics["vAssert"] = func(c *PathCtx, fr *frame, args []Value) Value {
 		c.doAssert(fr, args[0].(*Term), strArg(args[1]))
